@@ -1,5 +1,6 @@
 """Reference interpreter used as the violation-search oracle of C06/C07/C20.
 
+
 It executes the *pre-SSA* CFG dump of a definition (unversioned store, Circom's
 documented field semantics written here independently in Python integers) and,
 in lock step, reads the claims (constant value, degree range) the analysis
@@ -114,6 +115,9 @@ class Run:
         self.last_truth = {}   # block index -> truth value of its branch condition at its last evaluation
         self.arrivals = []     # (block, context, predecessor block, frozen truth values of the deciding conditions)
         self.idoms = None      # immediate-dominator table (set by the caller for the control-dependence audit)
+        self.comp_reads = 0    # port reads evaluated as indeterminates
+        self.phi_claims_seen = 0
+        self.cut = False       # stopped by the step limit (not by the program)
         self.decl_types = {}
         for d in pre[3][1:]:
             self.decl_types[key(d[0])] = d[1]
@@ -136,10 +140,13 @@ class Run:
 
     def note(self, pos, value, know):
         if know[1] != "-" or know[2] != "-":
-            ctxk = (pos, len(self.hdr_seq))
+            # the iteration context: the sequence of loop headers entered so far (not just its length: runs whose trip
+            # counts depend on the valuation are compared only where they are in the same iteration of the same loops)
+            hs = tuple(self.hdr_seq)
+            ctxk = (pos, hs)
             n = self.visits.get(ctxk, 0)
             self.visits[ctxk] = n + 1
-            self.obs.append((pos, (len(self.hdr_seq), n), value, know[1], know[2]))
+            self.obs.append((pos, (hs, n), value, know[1], know[2]))
 
     def ev(self, e, s, pos):
         """e: pre-SSA expression, s: SSA expression at the same position."""
@@ -175,12 +182,16 @@ class Run:
         elif tag == "array":
             val = [self.ev(x, y, pos + (i,)) for i, (x, y) in enumerate(zip(e[1], s[1]))]
             know = s[2]
-        elif tag == "access" and self.decl_types.get(key(e[1])) in ("sigin", "sigout", "sigint") and "__elem__" in self.inputs:
-            # an element of a signal array is an indeterminate of its own
+        elif tag == "access" and self.decl_types.get(key(e[1])) in ("sigin", "sigout", "sigint", "component", "anoncomponent") and "__elem__" in self.inputs:
+            # an element of a signal array is an indeterminate of its own; so is a port of a component (an unknown
+            # signal: whatever the sub-circuit computes, the template sees a fresh degree-1 indeterminate), addressed by
+            # the component element, the port name and the port indices
             idxs = []
             for i, (a, b) in enumerate(zip(e[2], s[2])):
-                idxs.append(self.ev(a[1], b[1], pos + (i,)) if a[0] == "idx" else "comp")
-            if all(isinstance(ix, int) for ix in idxs):
+                idxs.append(self.ev(a[1], b[1], pos + (i,)) if a[0] == "idx" else "." + a[1])
+            if self.decl_types.get(key(e[1])) in ("component", "anoncomponent"):
+                self.comp_reads += 1
+            if all(isinstance(ix, (int, str)) for ix in idxs):
                 val = self.inputs["__elem__"](e[1][1], tuple(idxs))
             else:
                 val = UNK
@@ -249,7 +260,8 @@ class Run:
         prev = None
         while True:
             if prev is not None and self.idoms is not None and len(self.pre_blocks[b][4]) >= 2:
-                ctx = (len(self.hdr_seq), sum(1 for a in self.arrivals if a[0] == b and a[1][0] == len(self.hdr_seq)))
+                hs = tuple(self.hdr_seq)
+                ctx = (hs, sum(1 for a in self.arrivals if a[0] == b and a[1][0] == hs))
                 self.arrivals.append((b, ctx, prev, tuple((d, self.last_truth.get(d)) for d in self.deciders(b))))
             prev = b
             self.path.append(b)
@@ -266,10 +278,21 @@ class Run:
                     nphi += 1
                 else:
                     break
+            # a claim on a leading phi statement is a claim about the value its variable holds when the block is
+            # entered (position: negative statement index, so that stmt_at finds the phi statement)
+            for j in range(nphi):
+                ph = sst[j]
+                k = key(ph[2])
+                if self.decl_types.get(k, "local") == "local" and k in self.store:
+                    self.phi_claims_seen += 1
+                    self.note((b, j - nphi), self.store[k], ph[4][2])
+                    if ph[5] != "-":
+                        self.note((b, j - nphi, "stmt"), self.store[k], ["k", ph[5], "-"])
             nxt = None
             for i, st in enumerate(pre[3]):
                 self.steps += 1
                 if self.steps > self.max_steps:
+                    self.cut = True
                     raise Stop()
                 s = sst[i + nphi]
                 pos = (b, i)
@@ -405,10 +428,24 @@ def _flatten(v):
     return [v]
 
 
-def check_degrees(pre, ssa, p, base, direction, names, max_steps=400, idoms=None, audit=None):
-    """Degree claims along the line base + t*direction (t = 0..4) in the space of
-    the indeterminates `names`. Only positions reached on an identical control
-    path for every t are compared. Returns (bad, exercised)."""
+def fits_degree(points, hi, p):
+    """Do the points [(t, value)] (distinct t) lie on a polynomial of degree <= hi over GF(p)? All divided differences
+    of order hi + 1 over consecutive points vanish. Needs hi + 2 points to say anything."""
+    ts = [t for t, _ in points]
+    cur = [v % p for _, v in points]
+    for order in range(1, hi + 2):
+        cur = [((cur[i + 1] - cur[i]) * pow((ts[i + order] - ts[i]) % p, p - 2, p)) % p for i in range(len(cur) - 1)]
+    return all(x == 0 for x in cur)
+
+
+def check_degrees(pre, ssa, p, base, direction, names, max_steps=400, idoms=None, audit=None, stats=None):
+    """Degree claims along the line base + t*direction (t = 0..4) in the space of the indeterminates `names`.
+    A claim `degree <= d` on a node is judged in every iteration context (sequence of loop headers entered so far,
+    visit number) on the runs that reach the node in that context: their values must lie on a polynomial of degree
+    <= d in t. When the five runs enter the same loop headers in the same order (the trip counts do not depend on
+    the valuation) that is all five points; when the trip counts depend on the valuation, a context is reached by
+    some of the runs only and is judged when at least d + 2 of them reach it (otherwise counted as discarded in
+    `stats`). Returns (bad, exercised, diverged)."""
     runs = []
     zero_base = all(v == 0 for k, v in base.items() if k != "__elem__")
     for t in range(5):
@@ -432,40 +469,60 @@ def check_degrees(pre, ssa, p, base, direction, names, max_steps=400, idoms=None
                 seen.setdefault(k2, prev)
                 if any(t is not None for _, t in truths):
                     audit["decided"] += 1
-    if any(r.hdr_seq != runs[0].hdr_seq for r in runs):
-        return [], 0, False
+    sigdep = any(r.hdr_seq != runs[0].hdr_seq for r in runs)
     diverged = any(r.path != runs[0].path for r in runs)
+    if stats is not None:
+        stats["lines"] = stats.get("lines", 0) + 1
+        stats["runs"] = stats.get("runs", 0) + len(runs)
+        stats["runs_cut_by_the_step_limit"] = stats.get("runs_cut_by_the_step_limit", 0) + sum(1 for r in runs if r.cut)
+        stats["claims_on_phi_statements_met"] = stats.get("claims_on_phi_statements_met", 0) + sum(r.phi_claims_seen for r in runs)
+        stats["component_port_reads_as_indeterminates"] = stats.get("component_port_reads_as_indeterminates", 0) + sum(r.comp_reads for r in runs)
+        if sigdep:
+            stats["lines_with_signal_dependent_trip_counts"] = stats.get("lines_with_signal_dependent_trip_counts", 0) + 1
     tables = [{(pos, n): (val, cd) for pos, n, val, cv, cd in r.obs if cd != "-"} for r in runs]
+    keys = {}
+    for t, tb in enumerate(tables):
+        for k, (val, cd) in tb.items():
+            keys.setdefault(k, []).append((t, val, cd))
     bad = []
     exercised = 0
-    for k, (v0, cd) in tables[0].items():
-        vals = []
-        for tb in tables:
-            if k not in tb:
-                vals = None
-                break
-            vals.append(tb[k][0])
-        if not vals or any(v is UNK for v in vals):
-            continue
+
+    def count(what):
+        if stats is not None and sigdep:
+            stats[what] = stats.get(what, 0) + 1
+
+    for k, pts in keys.items():
+        cd = pts[0][2]
         hi = DEG_N[cd[2]]
         if hi > 2:
             continue
-        if any(isinstance(v, list) for v in vals):
+        if any(v is UNK for _, v, _ in pts):
+            continue
+        if len(pts) < hi + 2:
+            # reached in this iteration context by too few of the runs to refute a polynomial of that degree
+            count("discarded_signal_dependent_paths")
+            continue
+        if any(isinstance(v, list) for _, v, _ in pts):
             # an array-valued node: the bound is claimed for every element
-            flat = [_flatten(v) for v in vals]
+            flat = [_flatten(v) for _, v, _ in pts]
             if any(fl is None for fl in flat) or len(set(len(fl) for fl in flat)) != 1:
                 continue
             exercised += 1
+            if len(pts) < 5:
+                count("claims_judged_on_signal_dependent_paths")
             for j in range(len(flat[0])):
-                col = [fl[j] for fl in flat]
-                if any(x != 0 for x in finite_diff(col, hi + 1, p)):
-                    bad.append((k, cd, col))
+                col = [(pt[0], fl[j]) for pt, fl in zip(pts, flat)]
+                if not fits_degree(col, hi, p):
+                    bad.append((k, cd, [c[1] for c in col]))
                     break
             continue
         exercised += 1
-        d = finite_diff(vals, hi + 1, p)
-        if any(x != 0 for x in d):
-            bad.append((k, cd, vals))
+        if len(pts) < 5:
+            count("claims_judged_on_signal_dependent_paths")
+        elif sigdep:
+            count("claims_judged_on_all_five_runs_of_such_lines")
+        if not fits_degree([(t, v) for t, v, _ in pts], hi, p):
+            bad.append((k, cd, [v for _, v, _ in pts]))
     return bad, exercised, diverged
 
 
